@@ -8,31 +8,30 @@ pub struct Sut {
     pub gc_rx: env::tokio::sync::mpsc::UnboundedReceiver<GCTask>,
 }
 
-pub fn mk_store(bcap: usize) -> Sut {
-    let ks = env::fjall::Keyspace;
-    let (btx, _brx) = env::tokio::sync::broadcast::channel(bcap);
-    let (gc_tx, gc_rx) = env::tokio::sync::mpsc::unbounded_channel();
-    let mut contexts = HashSet::new();
-    contexts.insert(ZERO_CONTEXT);
-    let store = Store {
-        path: PathBuf::new(),
-        keyspace: ks.clone(),
-        frame_partition: env::fjall::PartitionHandle { pid: env::fjall::P_STREAM },
-        idx_topic: env::fjall::PartitionHandle { pid: env::fjall::P_TOPIC },
-        idx_context: env::fjall::PartitionHandle { pid: env::fjall::P_CTX },
-        contexts: Arc::new(RwLock::new(contexts)),
-        broadcast_tx: btx,
-        gc_tx,
-    };
-    // the initial receiver handle is dropped, like in Store::new
+/// The store is built by the REAL `Store::new` over the model keyspace (so the harnesses do not
+/// depend on `Store`'s field list); the gc worker it spawns runs inline over the empty queue and
+/// returns; the harness attaches its own handle to the (singleton) gc queue.
+/// `_bcap` is kept for call-site compatibility: the broadcast capacity is what Store::new asks
+/// for (1024), capped by the model's ring (env::tokio broadcast BCAP).
+pub fn mk_store(_bcap: usize) -> Sut {
+    let was = env::sched::inline();
+    env::sched::set_inline(true);
+    let store = Store::new(PathBuf::new());
+    env::sched::set_inline(was);
+    let gc_rx = env::tokio::sync::mpsc::UnboundedReceiver::<GCTask>::model_attach(0);
+    gc_rx.model_reopen();
+    env::trace::reset();
     Sut { store, gc_rx }
 }
 
-/// run the REAL gc worker loop over everything queued so far
+/// run the REAL gc worker loop over everything queued so far (inline: the worker closure runs
+/// on this stack, nothing is boxed - see env::sched INLINE)
 pub fn gc_drain(sut: &Sut) {
+    let was = env::sched::inline();
+    env::sched::set_inline(true);
     spawn_gc_worker(sut.gc_rx.model_clone(), sut.store.clone());
-    let i = env::sched::ntasks() - 1;
-    env::sched::run_thread(i);
+    env::sched::set_inline(was);
+    sut.gc_rx.model_reopen();
 }
 
 pub fn smoke() -> usize {
